@@ -250,7 +250,8 @@ def run(ctx):
     pset = "{" + ", ".join(tla_mat(m) for m in PMATS) + "}"
     r = ctx.tlc("Gibbs", CFG, label="exact imaginary-time slices", workers=2,
                 constants={"PSet": pset, "NSet": "2..4" if quick else "2..6", "Emit": "TRUE"})
-    jobs = [(c, t) for c in r.cases for t in ((0.7,) if quick else (0.7, 2.0))]
+    # ... and in other energy units (H and T scaled together by 1e-9, 1e+6: the same exp(-H / T))
+    jobs = [(c, t) for c in r.cases for t in ((0.7, 0.7e-9) if quick else (0.7, 2.0, 0.7e-9, 2.0e6))]
     for (c, t), mm in zip(jobs, core.pmap(zero_coupling_job, jobs)):
         cid = {"P": c["p"], "n_steps": c["n"], "T": t, "check": "zero coupling"}
         ctx.case(cid, nontrivial=any(e[1] != 0 for row in c["p"] for e in row))
